@@ -289,7 +289,7 @@ func runC19(c *Ctx) (int, error) {
 			msg = msg[:300]
 		}
 		events = append(events, map[string]interface{}{"ev": "end", "tool": tool, "scenario": scenario, "exit": r.exit, "printed": strings.TrimSpace(r.stdout+r.stderr) != "",
-			"target_same": same, "reparse_same": reparse, "expectfail": expectFail, "crash": r.crash != "", "msg": r.crash + " " + msg})
+			"target_same": same, "reparse_same": reparse, "all_same": true, "expectfail": expectFail, "crash": r.crash != "", "msg": r.crash + " " + msg})
 	}
 	// ---- bebopc-go
 	inputs := []struct {
@@ -297,7 +297,13 @@ func runC19(c *Ctx) (int, error) {
 		bad        bool
 	}{{"valid", validSchema, false}, {"syntax-error", syntaxBad, true}, {"validation-error", validationBad, true}, {"missing-import", missingImport, true}, {"no-such-input", "", true}}
 	for _, in := range inputs {
-		for _, flags := range [][]string{{}, {"-combined-imports", "-generate-unsafe"}} {
+		for fi, flags := range [][]string{{}, {"-combined-imports", "-generate-unsafe"}, {}} {
+			// the third pass: -o names a symbolic link to the generated file (whatever the tool does with the link, what
+			// is read through the path must be the old or the complete new contents)
+			viaLink := fi == 2
+			if viaLink && in.name != "valid" && in.name != "syntax-error" {
+				continue
+			}
 			dir := filepath.Join(c.Work, "cli", fmt.Sprintf("c%d", runs))
 			_ = os.MkdirAll(dir, 0o755)
 			inp := filepath.Join(dir, "in.bop")
@@ -306,13 +312,24 @@ func runC19(c *Ctx) (int, error) {
 			}
 			target := filepath.Join(dir, "out.go")
 			reset := func() { _ = os.WriteFile(target, []byte(oldContent), 0o644) }
+			if viaLink {
+				reset = func() {
+					_ = os.Remove(target)
+					_ = os.WriteFile(filepath.Join(dir, "real_out.go"), []byte(oldContent), 0o644)
+					_ = os.Symlink("real_out.go", target)
+				}
+			}
 			args := append(append([]string{}, flags...), "-i", inp, "-o", target)
 			reset()
 			r, err := runTraced(filepath.Join(bindir, "bebopc-go"), args, dir, dir, "")
 			if err != nil {
 				return 2, infra("%v", err)
 			}
-			emitRun("bebopc-go", in.name+" input, no fault "+strings.Join(flags, " "), r, target, []byte(oldContent), in.bad, false)
+			linkNote := ""
+			if viaLink {
+				linkNote = " (-o is a symbolic link)"
+			}
+			emitRun("bebopc-go", in.name+" input, no fault "+strings.Join(flags, " ")+linkNote, r, target, []byte(oldContent), in.bad, false)
 			if in.bad || len(flags) > 0 {
 				continue
 			}
@@ -338,7 +355,7 @@ func runC19(c *Ctx) (int, error) {
 				if err != nil {
 					return 2, infra("%v", err)
 				}
-				emitRun("bebopc-go", fmt.Sprintf("valid input, write %d of %d fails with ENOSPC", k, nw), fr, target, []byte(oldContent), fr.injected, false)
+				emitRun("bebopc-go", fmt.Sprintf("valid input, write %d of %d fails with ENOSPC%s", k, nw, linkNote), fr, target, []byte(oldContent), fr.injected, false)
 			}
 			// which openat (counting all openat calls of the process) creates the output: find by replaying without -P is not possible; inject on every openat index that touches the directory
 			if nopen > 0 {
@@ -447,38 +464,53 @@ func runC19(c *Ctx) (int, error) {
 			events[len(events)-1]["exit"] = 0
 		}
 	}
-	// several path arguments: a failure on any of them must show in the exit status, files that cannot be processed stay untouched
-	for ai, order := range [][]string{{"schemas", "good.bop"}, {"good.bop", "bad.bop"}, {"bad.bop", "good.bop"}, {"good.bop", "schemas"}, {"good.bop", "good2.bop"}} {
+	// several path arguments, and the same command again (files already formatted by the first run): a failure on any
+	// argument must show in the exit status, files that cannot be processed stay untouched, and EVERY file of the
+	// directory still holds the schema it held before
+	other := "// another schema\nstruct Account {\n\tguid id;\n\tstring owner;\n}\nmessage Transfer {\n\t1 -> Account from;\n\t2 -> Account to;\n\t3 -> int64 amount;\n}\n"
+	otherUgly := "struct Account { guid id;\n string   owner; }\nmessage Transfer { 1 -> Account from;\n\n 2 -> Account to;\n 3 -> int64 amount; }\n"
+	for ai, order := range [][]string{{"schemas", "good.bop"}, {"good.bop", "bad.bop"}, {"bad.bop", "good.bop"}, {"good.bop", "schemas"}, {"good.bop", "good2.bop"},
+		{"good2.bop", "good.bop"}, {"good2.bop", "other.bop", "good.bop"}, {"otherugly.bop", "good2.bop", "other.bop"}, {"other.bop", "bad.bop", "good.bop"}} {
 		dir := filepath.Join(c.Work, "cli", fmt.Sprintf("multi%d", ai))
 		sub := filepath.Join(dir, "schemas")
 		_ = os.MkdirAll(sub, 0o755)
-		_ = os.WriteFile(filepath.Join(sub, "a_valid.bop"), []byte(uglySchema), 0o644)
-		_ = os.WriteFile(filepath.Join(sub, "b_invalid.bop"), []byte(syntaxBad), 0o644)
-		_ = os.WriteFile(filepath.Join(dir, "good.bop"), []byte(uglySchema), 0o644)
-		_ = os.WriteFile(filepath.Join(dir, "good2.bop"), []byte(validSchema), 0o644)
-		_ = os.WriteFile(filepath.Join(dir, "bad.bop"), []byte(syntaxBad), 0o644)
+		files := map[string]string{filepath.Join(sub, "a_valid.bop"): uglySchema, filepath.Join(sub, "b_invalid.bop"): syntaxBad, filepath.Join(dir, "good.bop"): uglySchema,
+			filepath.Join(dir, "good2.bop"): validSchema, filepath.Join(dir, "bad.bop"): syntaxBad, filepath.Join(dir, "other.bop"): other, filepath.Join(dir, "otherugly.bop"): otherUgly}
+		for p, text := range files {
+			_ = os.WriteFile(p, []byte(text), 0o644)
+		}
 		args := []string{"-w"}
 		bad := false
-		target := filepath.Join(dir, "good.bop")
-		old := []byte(uglySchema)
+		target := filepath.Join(dir, order[len(order)-1])
 		for _, a := range order {
 			args = append(args, filepath.Join(dir, a))
 			if a == "schemas" {
 				bad = true
-				target, old = filepath.Join(sub, "b_invalid.bop"), []byte(syntaxBad)
+				target = filepath.Join(sub, "b_invalid.bop")
 			}
 			if a == "bad.bop" {
 				bad = true
-				target, old = filepath.Join(dir, "bad.bop"), []byte(syntaxBad)
+				target = filepath.Join(dir, "bad.bop")
 			}
 		}
-		r, err := runTraced(filepath.Join(bindir, "bebopfmt"), args, dir, dir, "")
-		if err != nil {
-			return 2, infra("%v", err)
-		}
-		emitRun("bebopfmt", "several path arguments: "+strings.Join(order, " "), r, target, old, bad, !bad)
-		if bad && r.exit != 0 {
-			// the unparsable file is byte-identical (checked by target_same); nothing else to compare
+		for round := 1; round <= 2; round++ {
+			before, _ := os.ReadFile(target)
+			r, err := runTraced(filepath.Join(bindir, "bebopfmt"), args, dir, dir, "")
+			if err != nil {
+				return 2, infra("%v", err)
+			}
+			emitRun("bebopfmt", fmt.Sprintf("several path arguments: %s (run %d)", strings.Join(order, " "), round), r, target, before, bad, !bad)
+			// every file: an unparsable one is byte-identical, every other one still holds its schema
+			for p, text := range files {
+				now, _ := os.ReadFile(p)
+				if text == syntaxBad {
+					if string(now) != text {
+						events[len(events)-1]["all_same"] = false
+					}
+				} else if !sameSchema([]byte(text), now) {
+					events[len(events)-1]["all_same"] = false
+				}
+			}
 		}
 	}
 	if runs < 10 {
